@@ -490,6 +490,74 @@ func c15Queue() []core.Scenario {
 			}
 		}
 	}))
+	// Q13: producers on a COMPLETELY full queue (channel full and overflow buffer at its maximum, no consumer) while
+	// Close arrives: whatever Offer / Put do when nothing fits (refuse, or wait for room), the close must neither make
+	// them panic nor leave them blocked
+	for _, cfg := range [][2]int{{0, 0}, {1, 0}, {0, 1}, {2, 2}, {1, 3}} {
+		for _, usePut := range []bool{false, true} {
+			for _, delay := range []time.Duration{0, 3 * time.Millisecond} {
+				cfg, usePut, delay := cfg, usePut, delay
+				opName := "Offer"
+				if usePut {
+					opName = "Put"
+				}
+				out = append(out, c15Scenario(fmt.Sprintf("Q-full-queue-%s-cap%d-buf%d-close-after-%v", opName, cfg[0], cfg[1], delay), "BufferedChannelQueue", func(c *core.Ctx, id string) {
+					q := mkQ(cfg[0], cfg[1])
+					held := 0
+					for i := 1; i <= cfg[0]+cfg[1]+2; i++ {
+						if q.Offer(i) == nil {
+							held++
+						} else {
+							time.Sleep(time.Millisecond) // the loader may still move an item from the buffer to the channel
+							if q.Offer(i) == nil {
+								held++
+							}
+						}
+					}
+					var wg sync.WaitGroup
+					pvs := make([]any, 3)
+					errs := make([]error, 3)
+					for g := 0; g < 3; g++ {
+						g := g
+						wg.Add(1)
+						go func() {
+							defer wg.Done()
+							pvs[g], _ = core.Catch(func() {
+								if usePut {
+									errs[g] = q.Put(100 + g)
+								} else {
+									errs[g] = q.Offer(100 + g)
+								}
+							})
+						}()
+					}
+					if delay > 0 {
+						time.Sleep(delay)
+					}
+					cp, _ := core.Catch(func() { q.Close() })
+					joined := make(chan struct{})
+					go func() { wg.Wait(); close(joined) }()
+					v, dump := core.AwaitOrStuck(joined, 2*time.Second, 60*time.Second, director.Get().Total)
+					rep := map[string]any{"scenario": id, "held_at_close": held, "results": fmt.Sprint(errs), "panics": fmt.Sprint(pvs)}
+					if cp != nil || pvs[0] != nil || pvs[1] != nil || pvs[2] != nil {
+						c.Violationf("BufferedChannelQueue.full-queue-producers:panic", rep, "three %s calls on a completely full queue (capacity %d + buffer %d, no consumer) while Close() runs: panic close=%v producers=%v", opName, cfg[0], cfg[1], cp, pvs)
+					}
+					if v == "stuck" {
+						c.Violationf("BufferedChannelQueue.full-queue-producers:deadlock", map[string]any{"scenario": id, "goroutines": core.RepoGoroutineSummary(dump)}, "%s on a completely full queue is not released by Close()", opName)
+						return
+					} else if v != "done" {
+						c.Inconclusive("watchdog in " + id)
+						return
+					}
+					for g, e := range errs {
+						if pvs[g] == nil && e != fpgo.ErrQueueIsFull && e != fpgo.ErrQueueIsClosed {
+							c.Violationf("BufferedChannelQueue.full-queue-producers:wrong-result", rep, "%s #%d on a completely full queue that is being closed returned %v (want ErrQueueIsFull or ErrQueueIsClosed: nobody took anything)", opName, g, e)
+						}
+					}
+				}))
+			}
+		}
+	}
 	// Q12: everything after Close returned reports it
 	for _, fill := range []int{0, 1, 5, 6, 9} {
 		fill := fill
